@@ -6,6 +6,7 @@ from ..common import enc_val, exc_name, float_table, has_unmodelled
 from ..runner import Outcome
 
 LEVEL = "proof"
+TRUSTED_EXTRA = ["translator verif/gen_bodies.py (Python ast -> PyIR terms, purely syntactic; skipped constructs are listed in the evidence, never approximated)", "PyIR interpreter (lean/MafModel/MafModel/PyIR/Interp.lean): the hand-written meaning of the translated Python fragment, validated on every run against the real __validate__ / __build__ methods (body.validate, body.build)"]
 ASSUMPTIONS = ["records are built through the public API: column objects of any library class with any key / value / index, added to a record, then possibly mutated"]
 ANN = "gdc-1.0.0"
 
